@@ -70,6 +70,9 @@ def models():
     m("unbounded variables", [("x", "Real"), ("y", "NonNegativeReal"), ("z", "IntegerRange(-3, 3)")], ("min", ("+", ("-", ("*", ("i", 2), x), y), z)), [("", ("+", x, y), ">=", ("i", 1)), ("", ("-", x, ("*", ("f", 1.5), y)), "<=", ("i", 4)), ("", z, ">=", x)])
     m("satisfy", num_decl, ("sat", None), [("", ("+", x, y), ">=", ("i", 1)), ("", z, "<=", ("i", 3)), ("", ("-", x, z), "=", ("f", 0.5))])
     m("no objective set", num_decl, None, [("", ("+", ("+", x, y), z), ">=", ("i", 1))])
+    # an objective without variables keeps its direction and its constant on every front door
+    for k, (dir_, e) in enumerate([("max", ("f", 5.0)), ("min", ("f", -2.5)), ("max", ("expr", ("i", 5))), ("min", ("+", ("expr", ("f", 1.0)), ("f", 2.0))), ("max", ("-", x, x)), ("min", ("+", ("-", x, x), ("i", 4)))]):
+        m("constant objective %d" % k, num_decl, (dir_, e), [("", ("+", ("+", x, y), z), ">=", ("i", 1)), ("", y, "<=", ("f", 2.5))])
     m("mixed", num_decl + log_decl, ("max", ("-", ("+", x, ("*", ("i", 3), p)), ("*", ("f", 0.5), z))), [("cap", ("+", x, ("*", ("i", 5), p)), "<=", ("i", 7)), ("", ("implies", p, ("or", q, r)), None, None), ("", z, ">=", ("*", ("i", 2), q)), ("", ("abs", ("-", x, y)), "<=", ("i", 3))])
     return out
 
